@@ -11,8 +11,8 @@ import random
 import xml.parsers.expat
 from fractions import Fraction
 
-from vlib import build_harness, log, ToolError, VERIF_METATYPES, translate, tlc, tlc_must_pass
-from vlib import progs as P
+from vlib import QT5_METATYPES, build_harness, log, ToolError, VERIF_METATYPES, translate, tlc, tlc_must_pass
+from vlib import lang, progs as P
 
 RULE = ("case = constant expression or literal spelling; expressions: operator x operand matrix over {-2^63,-7,-2,-1,0,1,2,3,7,2^31,2^32,2^53,2^62,"
         "+-(2^63-1)} incl. shift counts {-1,0,1,2,31,32,62,63,64,2^32,3-2^32}, seeded nested triples, double/bool/string matrices, mixed-type "
@@ -226,6 +226,8 @@ def run(chk):
                               {"qml": "import qmluic.QtWidgets\nQWidget { TSource { %s: %s } }" % (c["prop"], c["src"]), "expected": c["expect"], "observed": got,
                                "diagnostics": here})
     family(chk)
+    qt_family(chk)
+    const_ctl_family(chk)
     flags_family(chk)
     nonfinite_family(chk)
     chk.cov["programs"] = len(cases)
@@ -324,6 +326,75 @@ def nonfinite_family(chk):
         if got and got[0][0] == "bool" and got[0][2] != ("true" if c["holds"] else "false"):
             chk.violation("`%s` is %s (IEEE 754) but embedded as <bool>%s</bool>" % (text, c["holds"], got[0][2]), {"qml": q["src"], "model": c})
     chk.cov["nonfinite_comparisons"] = len(reqs)
+
+
+# value types with their own reading of a constant (uigen/expr.rs parse_as_value_type), on real Qt classes
+QT_FAMILY = [
+    # (class, binding text, property, expected (element, text) | "rej")
+    ("QPushButton", 'shortcut: "Ctrl+O"', "shortcut", ("string", "Ctrl+O")), ("QPushButton", "shortcut: QKeySequence.Open", "shortcut", ("enum", "QKeySequence::Open")),
+    ("QPushButton", "shortcut: 1", "shortcut", "rej"), ("QPushButton", "shortcut: true", "shortcut", "rej"), ("QPushButton", "shortcut: Qt.AlignLeft", "shortcut", "rej"),
+    ("QPushButton", 'shortcut: qsTr("Ctrl+P")', "shortcut", ("string", "Ctrl+P")), 
+    ("QLabel", "cursor: Qt.WaitCursor", "cursor", ("cursorShape", "WaitCursor")), ("QLabel", "cursor: 1", "cursor", "rej"), ("QLabel", 'cursor: "WaitCursor"', "cursor", "rej"),
+    ("QLabel", "cursor: Qt.AlignLeft", "cursor", "rej"),
+    ("QLabel", 'pixmap: "a.png"', "pixmap", ("pixmap", "a.png")), ("QLabel", 'pixmap: qsTr("a.png")', "pixmap", "rej"), ("QLabel", "pixmap: 1", "pixmap", "rej"),
+    ("QLabel", 'pixmap: "a" + ".png"', "pixmap", ("pixmap", "a.png")),
+    ("QLabel", "alignment: Qt.AlignLeft | Qt.AlignTop", "alignment", ("set", "Qt::AlignLeft|Qt::AlignTop")), ("QLabel", "alignment: 1", "alignment", "rej"),
+    ("QLabel", "textFormat: Qt.RichText", "textFormat", ("enum", "Qt::RichText")), ("QLabel", "textFormat: Qt.AlignLeft", "textFormat", "rej"),
+    ("QLabel", "indent: 1.5", "indent", "rej"), ("QLabel", 'indent: "1"', "indent", "rej"), ("QDoubleSpinBox", "value: 2", "value", "rej"), ("QDoubleSpinBox", "value: 2.5", "value", ("number", "2.5")),
+    ("QLabel", "windowOpacity: 0.25", "windowOpacity", ("number", "0.25")), ("QLabel", "enabled: 0", "enabled", "rej"), ("QLabel", 'text: null', "text", "rej"),
+    ("QLabel", "buddy: null", "buddy", "rej-or-dynamic"), # (the 32-bit range of an int property is not checked at translation time: constants are 64-bit, as `ival: 2147483647 + 1` above)
+    ("QSpinBox", "value: 2147483647", "value", ("number", "2147483647")), ("QSpinBox", "value: -2147483648", "value", ("number", "-2147483648")),
+]
+
+
+def qt_family(chk):
+    for i, (cls, text, prop, exp) in enumerate(QT_FAMILY):
+        qml = "import qmluic.QtWidgets\nQWidget {\n  %s { id: f0\n    %s\n  }\n}\n" % (cls, text)
+        run_ = translate([{"id": "q", "src": qml, "type_name": "Doc", "modes": ["generate"]}], metatypes=[QT5_METATYPES], procs=1)["q"]["generate"]
+        chk.count({"qt_family": text}, nontrivial=True)
+        if run_.get("panic") or not run_.get("ui"):
+            continue
+        got = ui_values(run_["ui"]).get("f0", {}).get(prop)
+        in_header = ("EvalF0" in (run_.get("header") or "")) or ("evalF0" in (run_.get("header") or ""))
+        if exp in ("rej", "rej-or-dynamic"):
+            if got is not None:
+                chk.violation("constant binding `%s` on %s is embedded as %s although its type is not that of the property" % (text, cls, got), {"qml": qml, "embedded": got})
+            elif exp == "rej" and not run_.get("n_errors"):
+                chk.violation("ill-typed constant binding `%s` on %s is not diagnosed" % (text, cls), {"qml": qml, "header": run_.get("header")})
+            elif exp == "rej-or-dynamic" and not run_.get("n_errors") and not in_header:
+                chk.violation("binding `%s` on %s is neither embedded, generated nor diagnosed" % (text, cls), {"qml": qml})
+            continue
+        if got is None or len(got) != 1 or (got[0][0], got[0][2]) != exp:
+            chk.violation("constant binding `%s` on %s: expected <%s>%s, got %s (%s)" % (text, cls, exp[0], exp[1], got, [d["msg"] for d in run_.get("diags", [])][:2]),
+                          {"qml": qml, "expected": exp, "observed": got})
+
+
+def const_ctl_family(chk):
+    """G: constant bodies with control flow the static evaluator can follow (GenConstCtl.tla); expected values from Lang.tla (Expect.tla)"""
+    progs = P.tlc_programs(chk, "GenConstCtl", 100, chk.seed)
+    for n, p in enumerate(progs):
+        p["id"] = "k%d" % n
+    rows = P.expect(chk, progs)
+    reqs = [{"id": p["id"], "src": P.binding_doc([p])[0], "type_name": "Doc", "modes": ["generate"]} for p in progs]
+    res = translate(reqs, metatypes=[VERIF_METATYPES])
+    n_emb = 0
+    for p, q in zip(progs, reqs):
+        run_ = res[p["id"]]["generate"]
+        r = rows.get(p["id"])
+        chk.count({"const_ctl": p["body"]}, nontrivial=True)
+        if run_.get("panic") or not run_.get("ui") or not r or not r[0]["ok"]:
+            continue
+        want = lang.canon_from_show(r[0]["v"])
+        got = ui_values(run_["ui"]).get("t0", {}).get("ival")
+        if got:
+            n_emb += 1
+            if got[0][0] != "number" or got[0][2] != want:
+                chk.violation("constant body `%s` has the value %s but is embedded as <%s>%s" % (lang.r_body(p["body"])[:120], want, got[0][0], got[0][2]), {"qml": q["src"], "expected": want})
+        elif not run_.get("n_errors") and "evalT0Ival" not in (run_.get("header") or ""):
+            chk.violation("constant body `%s` is neither embedded, generated nor diagnosed" % lang.r_body(p["body"])[:120], {"qml": q["src"]})
+    chk.cov["constant_bodies_with_control_flow"] = {"programs": len(progs), "embedded": n_emb}
+    if n_emb < 10:
+        raise ToolError("only %d of the constant bodies were embedded: the family does not reach the static evaluator" % n_emb)
 
 
 def family(chk):
